@@ -18,7 +18,8 @@ LEVEL = 'model_checking'
 ENGINE = 'E2 small-scope enumeration against a key-multiplicity reference'
 RULE = ('every rectangular table with n rows (0..max, header-only and single-row included) of each family '
         '(key column x value column {1,2}, with and without an id column; two key columns x value column) x key '
-        'forms {None, field, index, compound, list} x call variants {default, presorted=True on reference-sorted '
+        'forms {None, field, index, compound, list} x header-field namings (text; and, for key=None / index keys, '
+        'int names that look like indices, bool, None, float, duplicate names, names equal after str()) x call variants {default, presorted=True on reference-sorted '
         'input; buffersize 1/2 and cache=False on the small family} x operations {duplicates, unique, '
         'duplicates+unique partition, distinct, distinct(count=), conflicts (include/exclude forms; missing markers '
         'identical to the cells (1), equal but of another type (1.0, True vs int 1) and equal but a different object '
@@ -39,6 +40,10 @@ ASSUMPTIONS = [
 
 _P = {}
 COUNT = 'n'
+
+
+HEADER_NAMINGS_2 = [('name', 0), (1, 0), (0, 0), (None, 'v'), (1.5, 'v'), ('v', 'v'), ('1', 1), (7, 'v'), (True, 'y')]
+HEADER_NAMINGS_3 = [('a', 'b', 0), ('x', True, 'y'), (2, 0, 1), (2019, 2020, 'v')]
 
 
 def _families(tier, seed):
@@ -71,6 +76,15 @@ def _families(tier, seed):
         fams['mk_' + kind] = dict(hdr=('k', 'v'), syms=[(k, v) for k in K3[1:] for v in (_Mark(kind), a, b)],
                                   maxn=4 if thorough else 3, keys=['k', ('k',)], variants=base,
                                   cargs=('plain', 'miss_%s' % kind, 'miss_%s_inc_v' % kind), ops=('conflicts',))
+    # header-field naming: field names that are not text (ints that look like indices, bool, None, float, years),
+    # duplicate names and names equal after str().  Whole-row mode (key=None) and keys given by index must not
+    # look at the names; the header must come back unchanged.  (Keys by NAME for non-text names are undocumented.)
+    for i, h in enumerate(HEADER_NAMINGS_2):
+        fams['hn2_%d' % i] = dict(hdr=h, syms=[(k, v) for k in K3 for v in V], maxn=4 if thorough else 3,
+                                  keys=[None, 0, 1, (0, 1), (1, 0)], variants=base, cargs=('plain',))
+    for i, h in enumerate(HEADER_NAMINGS_3):
+        fams['hn3_%d' % i] = dict(hdr=h, syms=[(k, k2, v) for k in K3[:2] for k2 in K3[:2] for v in V],
+                                  maxn=3, keys=[None, (0, 1), 2, 0], variants=base, cargs=('plain',))
     # strategy variants on a smaller family (the sort below the operators is C05's subject)
     fams['kvb'] = dict(hdr=('k', 'v'), syms=[(k, v) for k in K3 for v in V], maxn=4 if thorough else 3,
                        keys=[None, 'k'], variants=('bs1', 'bs2', 'bs1-nocache'), cargs=('plain',))
